@@ -3,6 +3,8 @@ import LenaModel.Props.C08
 import LenaModel.Props.C13
 import LenaModel.Props.C14
 import LenaModel.Model.C15
+import LenaModel.Model.C11
+import LenaModel.Model.Flow
 /-! # Bridge — the independent transcriptions of the nested-dictionary context functions agree
 
 `lena/context/functions.py` (`update_recursively`, `intersection`, `get_recursively`, `contains`,
@@ -1307,7 +1309,8 @@ example : outRelX leaf13 (fun _ => C13.Leaf.bad) ["a", "b"]
     (C07.strToDict 2 false [0, 1] (.str "b") (some (.leaf (.int 5)))) := by
   have := strToDict_08_07 leaf13 (fun _ => C13.Leaf.bad) ["a", "b"] (by decide) ["a", "b"] (by simp)
     (by intro k hk; simp at hk; rcases hk with rfl | rfl <;> decide) (by simp) (some (.leaf (.int 5)))
-  simpa [idx, absV_leaf, leaf13] using this
+  have e : List.idxOf "b" ["a", "b"] = 1 := by decide
+  simpa [idx, absV_leaf, leaf13, e] using this
 
 /-! ### corollaries -/
 
@@ -1333,4 +1336,661 @@ theorem c13_single_read (n k : Nat) (ks : List Nat) (l : C13.Leaf) (hk : k < n) 
   | error e => rw [hr] at h1; simp [Except.toOption] at h1
 
 end strToDict
+
+/-! ## 6. `format_context(format_str)(d)` and `format_update_with(key, value, d)` (functions.py:111-239)
+
+Lean: `C08.formatInit` (the scanner over the characters of the template) + `C08.formatCall` (look up every
+field with `get_recursively`, `str()` the items, `str.format`), `C08.formatUpdateWith`; `C13.fmt` on a
+template given *parsed* (`Tpl`: literal, then (path, literal) pairs), `C13.fmtUpdate`.
+A string-level template `Tpl8` (keys are strings) is read by C08 as its template string
+`head{{k1.k2}}lit…` (`Tpl8.str`, scanned by `formatInit`) and by C13 as the parsed `Tpl` over slot numbers.
+Common domain: brace-free literals, key paths of non-empty keys without `. { } ! :` that are in the table
+(`Tpl8.WF`, i.e. `C08.Piece.WF`), and fields that name ints or strings (`ScalarFields`).
+Outside it: a field that names a dictionary, a list, `None`, a bool, a float or a foreign object — C13 answers
+with its poison leaf `bad`, C08 with Python's `str()` of the item (or `unmodelled`); conversions and format
+specifications (`{{x!r}}`, `{{x:>5}}`), which C08 passes to `pyFormat` and C13 does not parse; which key
+C13's `LenaKeyError` names. -/
+
+section format
+
+/-- a template with string keys: the literal before the first field, then (key path, literal after it) -/
+structure Tpl8 where
+  head : String
+  parts : List (List String × String)
+
+/-- C13's reading: the parsed template over slot numbers -/
+def Tpl8.to13 (names : List String) (t : Tpl8) : C13.Tpl :=
+  ⟨t.head, t.parts.map (fun pl => (idx names pl.1, pl.2))⟩
+
+def partPieces : List (List String × String) → List C08.Piece
+  | [] => []
+  | (p, lit) :: r => .field p :: .lit lit :: partPieces r
+
+/-- C08's reading: literal and field pieces; `Tpl8.str` is the Python template string -/
+def Tpl8.pieces (t : Tpl8) : List C08.Piece := .lit t.head :: partPieces t.parts
+def Tpl8.str (t : Tpl8) : String := C08.templateString t.pieces
+
+/-- "template strings built from literals and fields" (`C08.Piece.WF`), keys in the table -/
+def Tpl8.WF (names : List String) (t : Tpl8) : Prop :=
+  (∀ p ∈ t.pieces, p.WF) ∧ ∀ pl ∈ t.parts, ∀ k ∈ pl.1, k ∈ names
+
+/-- an item both models render the same way: a Python int or str -/
+def IsIS : C08.Val → Prop
+  | .leaf (.int _) => True
+  | .leaf (.str _) => True
+  | _ => False
+
+/-- every field that names an item names an int or a string -/
+def ScalarFields (es : C08.Entries) (parts : List (List String × String)) : Prop :=
+  ∀ pl ∈ parts, ∀ v, C08.getPath (.dict es) pl.1 = some v → IsIS v
+
+/-- `str(item)`: C13's `render` of the slot view is C08's `strSpec` -/
+theorem render_13_08 (names : List String) (v : C08.Val) (h : IsIS v) :
+    C13.render (absV leaf13 (fun _ => C13.Leaf.bad) names v) = some (C08.strSpec v) := by
+  cases v with
+  | dict es => simp [IsIS] at h
+  | list xs => simp [IsIS] at h
+  | leaf a =>
+    cases a <;> simp [IsIS] at h <;>
+      simp [absV_leaf, leaf13, C13.render, C08.strSpec, C08.pyStrVal, C08.pyStr]
+
+theorem strFields_of_scalar (es : C08.Entries) : ∀ (parts : List (List String × String)),
+    ScalarFields es parts → C08.StrFields es (partPieces parts) := by
+  intro parts h
+  unfold C08.StrFields
+  intro p hp v hv
+  have : ∃ pl ∈ parts, pl.1 = p := by
+    clear h hv
+    induction parts with
+    | nil => simp [partPieces] at hp
+    | cons x r ih =>
+      obtain ⟨q, lit⟩ := x
+      simp only [partPieces, List.mem_cons, C08.Piece.field.injEq, reduceCtorEq, false_or] at hp
+      rcases hp with rfl | hp
+      · exact ⟨(p, lit), by simp, rfl⟩
+      · obtain ⟨pl, hm, he⟩ := ih hp
+        exact ⟨pl, by simp [hm], he⟩
+  obtain ⟨pl, hm, rfl⟩ := this
+  have hi := h pl hm v hv
+  cases v with
+  | dict es => simp [IsIS] at hi
+  | list xs => simp [IsIS] at hi
+  | leaf a => cases a <;> simp [IsIS] at hi <;> simp [C08.pyStrVal, C08.pyStr]
+
+variable (names : List String)
+
+/-- the values of the fields (paired with the literal after each), as C13's `lookups` collects them -/
+def vals13 (es : C08.Entries) : List (List String × String) → List (C13.V × String)
+  | [] => []
+  | (p, lit) :: r =>
+    (absV leaf13 (fun _ => C13.Leaf.bad) names ((C08.getPath (.dict es) p).getD (.leaf .none)), lit) :: vals13 es r
+
+/-- the loop `for arg in args: new_args.append(get_recursively(context, arg))`: C13's `lookups` on the slot
+view succeeds exactly when all fields are present for C08 -/
+theorem lookups_13_08 (es : C08.Entries) : ∀ (parts : List (List String × String)),
+    (∀ pl ∈ parts, ∀ k ∈ pl.1, k ∈ names) →
+    (C08.fieldsPresent es (partPieces parts) = true →
+      C13.lookups (absE leaf13 (fun _ => C13.Leaf.bad) names es) (parts.map (fun pl => (idx names pl.1, pl.2))) =
+        .ok (vals13 names es parts)) ∧
+    (C08.fieldsPresent es (partPieces parts) = false →
+      ∃ k, C13.lookups (absE leaf13 (fun _ => C13.Leaf.bad) names es) (parts.map (fun pl => (idx names pl.1, pl.2))) =
+        .error k)
+  | [], _ => by simp [partPieces, C08.fieldsPresent, C13.lookups, vals13]
+  | (p, lit) :: r, hk => by
+    have ih := lookups_13_08 es r (fun pl hpl => hk pl (by simp [hpl]))
+    have hp : ∀ k ∈ p, k ∈ names := hk (p, lit) (by simp)
+    have h13 := getRec_13_path (idx names p) (absE leaf13 (fun _ => C13.Leaf.bad) names es)
+    have h08 := getPath_08_path leaf13 (fun _ => C13.Leaf.bad) names p (.dict es) hp
+    rw [absV_dict] at h08
+    rw [← h08] at h13
+    simp only [partPieces, C08.fieldsPresent, List.map_cons, C13.lookups, vals13]
+    cases hg : C08.getPath (.dict es) p with
+    | none =>
+      rw [hg] at h13
+      cases hr : C13.getRec (absE leaf13 (fun _ => C13.Leaf.bad) names es) (idx names p) with
+      | ok w => rw [hr] at h13; simp [Except.toOption] at h13
+      | error k => simp
+    | some v =>
+      rw [hg] at h13
+      cases hr : C13.getRec (absE leaf13 (fun _ => C13.Leaf.bad) names es) (idx names p) with
+      | error k => rw [hr] at h13; simp [Except.toOption] at h13
+      | ok w =>
+        rw [hr] at h13
+        simp only [Except.toOption, Option.map_some, Option.some.injEq] at h13
+        subst h13
+        simp only [Option.isSome_some, Bool.true_and, Option.getD_some]
+        constructor
+        · intro hf; rw [(ih.1 hf)]
+        · intro hf; obtain ⟨k, hk'⟩ := ih.2 hf; exact ⟨k, by rw [hk']⟩
+
+/-- `format_str.format(*new_args)`: C13's `renderAll` produces C08's reference rendering -/
+theorem renderAll_13_08 (es : C08.Entries) : ∀ (parts : List (List String × String)) (acc : String),
+    C08.fieldsPresent es (partPieces parts) = true → ScalarFields es parts →
+    C13.renderAll acc (vals13 names es parts) = some (acc ++ C08.renderSpec es (partPieces parts))
+  | [], acc, _, _ => by simp [vals13, C13.renderAll, partPieces, C08.renderSpec]
+  | (p, lit) :: r, acc, hf, hs => by
+    simp only [partPieces, C08.fieldsPresent, Bool.and_eq_true] at hf
+    obtain ⟨v, hv⟩ := Option.isSome_iff_exists.1 hf.1
+    have hi : IsIS v := hs (p, lit) (by simp) v hv
+    simp only [vals13, C13.renderAll, hv, Option.getD_some, render_13_08 names v hi, partPieces, C08.renderSpec]
+    rw [renderAll_13_08 es r _ hf.2 (fun pl hpl => hs pl (by simp [hpl]))]
+    simp [String.append_assoc]
+
+/-- **format_context, C08 ↔ C13**: for a template of the common domain, C08 scans its template string
+successfully, and for every context (association list) the formatter C08 returns and C13's `fmt` on the
+slot view agree: `LenaKeyError` on both sides when a field names nothing, otherwise the same string -/
+theorem fmt_08_13 (t : Tpl8) (hw : t.WF names) :
+    ∃ f, C08.formatInit (some t.str) = .ok f ∧
+      ∀ es : C08.Entries,
+        (C08.fieldsPresent es t.pieces = false →
+          C08.formatCall f (.dict es) = .error .lenaKeyError ∧
+          ∃ k, C13.fmt (t.to13 names) (absE leaf13 (fun _ => C13.Leaf.bad) names es) = .error k) ∧
+        (C08.fieldsPresent es t.pieces = true → ScalarFields es t.parts →
+          ∃ s, C08.formatCall f (.dict es) = .ok s ∧
+            C13.fmt (t.to13 names) (absE leaf13 (fun _ => C13.Leaf.bad) names es) = .ok (.str s)) := by
+  obtain ⟨f, hf, hcall⟩ := C08.format_exact t.pieces hw.1
+  refine ⟨f, hf, fun es => ⟨?_, ?_⟩⟩
+  · intro hp
+    refine ⟨(hcall es).1 hp, ?_⟩
+    have hp' : C08.fieldsPresent es (partPieces t.parts) = false := by
+      simpa [Tpl8.pieces, C08.fieldsPresent] using hp
+    obtain ⟨k, hk⟩ := (lookups_13_08 names es t.parts hw.2).2 hp'
+    exact ⟨k, by simp [C13.fmt, Tpl8.to13, hk]⟩
+  · intro hp hs
+    have hp' : C08.fieldsPresent es (partPieces t.parts) = true := by
+      simpa [Tpl8.pieces, C08.fieldsPresent] using hp
+    have hstr : C08.StrFields es t.pieces := by
+      have := strFields_of_scalar es t.parts hs
+      unfold C08.StrFields at this ⊢
+      intro p hm
+      simp only [Tpl8.pieces, List.mem_cons, reduceCtorEq, false_or] at hm
+      exact this p hm
+    refine ⟨C08.renderSpec es t.pieces, (hcall es).2 hp hstr, ?_⟩
+    simp only [C13.fmt, Tpl8.to13, (lookups_13_08 names es t.parts hw.2).1 hp',
+      renderAll_13_08 names es t.parts t.head hp' hs, Tpl8.pieces, C08.renderSpec]
+
+/-! ### `format_update_with` -/
+
+/-- the value argument of `SetContext` / `format_update_with` in both vocabularies: a constant scalar, or a
+template -/
+inductive SVal8 where
+  | const (a : C08.Leaf)
+  | tpl (t : Tpl8)
+
+def SVal8.to13 (names : List String) : SVal8 → C13.SVal
+  | .const a => .const (leaf13 a)
+  | .tpl t => .tpl (t.to13 names)
+
+def SVal8.to08 : SVal8 → C08.Val
+  | .const a => .leaf a
+  | .tpl t => .leaf (.str t.str)
+
+/-- the recursive assignment `UpdateContext`/`format_update_with` end in (`C08.ucSet true`) is, in the slot
+view, C13's `updL d (single …)` -/
+theorem ucSet_08_13 (hn : names.Nodup) (d : C08.Entries) (k : String) (ks : List String) (a : C08.Leaf) :
+    absE leaf13 (fun _ => C13.Leaf.bad) names (C08.ucSet true d (k :: ks) (.leaf a)) =
+      C13.updL (absE leaf13 (fun _ => C13.Leaf.bad) names d)
+        (C13.single names.length (names.idxOf k) (idx names ks) (leaf13 a)) := by
+  rw [← C08.updRec_nestPath ks d (.leaf a) k, ← nestPath_08_13 names hn ks k a]
+  apply updRec_08_13
+  have nestWF : ∀ (q : List String) (x : C08.Val), x.WF → (C08.nestPath q x).WF := by
+    intro q
+    induction q with
+    | nil => intro x hx; simpa [C08.nestPath] using hx
+    | cons k q ih => intro x hx; simp [C08.nestPath, C08.Val.WF, C08.EntriesWF, C08.lookup, ih x hx]
+  simp [C08.EntriesWF, C08.lookup, nestWF ks (.leaf a) (by simp [C08.Val.WF])]
+
+/-- the template string of a template with at least one field holds a brace (so `format_update_with`
+formats it); a constant string is taken as it is when it holds none -/
+theorem tpl_has_brace (t : Tpl8) (h : t.parts ≠ []) : t.str.toList.contains '{' = true := by
+  obtain ⟨head, parts⟩ := t
+  cases parts with
+  | nil => exact absurd rfl h
+  | cons x r =>
+    obtain ⟨p, lit⟩ := x
+    simp [Tpl8.str, Tpl8.pieces, partPieces, C08.templateString, C08.render0, C08.Piece.toTP]
+
+/-- **format_update_with, C08 ↔ C13** (a constant that is not a template): the same updated dictionary, in
+the slot view -/
+theorem fuw_const_08_13 (hn : names.Nodup) (k : String) (ks : List String) (hw : C08.WFPath (k :: ks))
+    (a : C08.Leaf) (ha : C08.NotTemplate (.leaf a)) (d : C08.Entries) :
+    ∃ d', C08.formatUpdateWith (some (C08.joinDots (k :: ks))) (.leaf a) (.dict d) = .ok (.dict d') ∧
+      C13.fmtUpdate names.length (names.idxOf k) (idx names ks) (.const (leaf13 a))
+          (absE leaf13 (fun _ => C13.Leaf.bad) names d) =
+        .ok (absE leaf13 (fun _ => C13.Leaf.bad) names d') := by
+  refine ⟨_, C08.fuw_plain (k :: ks) (by simp) hw (.leaf a) ha d, ?_⟩
+  rw [C13.fmtUpdate, ucSet_08_13 names hn]
+
+/-- **format_update_with, C08 ↔ C13** (a template value): on the common domain, either both raise
+`LenaKeyError` (a field names nothing; nothing is assigned), or both assign the same rendered string to the
+key path -/
+theorem fuw_tpl_08_13 (hn : names.Nodup) (k : String) (ks : List String) (hw : C08.WFPath (k :: ks))
+    (t : Tpl8) (ht : t.WF names) (hne : t.parts ≠ []) (d : C08.Entries) :
+    (C08.fieldsPresent d t.pieces = false →
+      C08.formatUpdateWith (some (C08.joinDots (k :: ks))) (.leaf (.str t.str)) (.dict d) = .error .lenaKeyError ∧
+      ∃ e, C13.fmtUpdate names.length (names.idxOf k) (idx names ks) (.tpl (t.to13 names))
+        (absE leaf13 (fun _ => C13.Leaf.bad) names d) = .error e) ∧
+    (C08.fieldsPresent d t.pieces = true → ScalarFields d t.parts →
+      ∃ d', C08.formatUpdateWith (some (C08.joinDots (k :: ks))) (.leaf (.str t.str)) (.dict d) = .ok (.dict d') ∧
+        C13.fmtUpdate names.length (names.idxOf k) (idx names ks) (.tpl (t.to13 names))
+            (absE leaf13 (fun _ => C13.Leaf.bad) names d) =
+          .ok (absE leaf13 (fun _ => C13.Leaf.bad) names d')) := by
+  obtain ⟨f, hf, hcall⟩ := fmt_08_13 names t ht
+  have hb := tpl_has_brace t hne
+  have h8 := C08.fuw_template (k :: ks) (by simp) hw t.str hb d
+  constructor
+  · intro hp
+    obtain ⟨h1, e, h2⟩ := (hcall d).1 hp
+    exact ⟨h8.2.1 f _ hf h1, e, by simp [C13.fmtUpdate, h2]⟩
+  · intro hp hs
+    obtain ⟨s, h1, h2⟩ := (hcall d).2 hp hs
+    refine ⟨_, h8.1 f s hf h1, ?_⟩
+    simp only [C13.fmtUpdate, h2]
+    rw [ucSet_08_13 names hn]
+    rfl
+
+def exT : Tpl8 := ⟨"run_", [(["a", "b"], "_"), (["c"], "")]⟩
+
+example : exT.str = "run_{{a.b}}_{{c}}" := by decide
+
+example : exT.WF ["a", "b", "c"] := by
+  refine ⟨?_, ?_⟩
+  · intro p hp
+    simp [exT, Tpl8.pieces, partPieces] at hp
+    rcases hp with rfl | rfl | rfl | rfl | rfl
+    · intro c hc; simp at hc; rcases hc with rfl | rfl | rfl | rfl <;> decide
+    · refine ⟨?_, ?_⟩ <;> (intro k hk; simp at hk; rcases hk with rfl | rfl <;> decide)
+    · intro c hc; simp at hc; subst hc; decide
+    · refine ⟨?_, ?_⟩ <;> (intro k hk; simp at hk; subst hk; decide)
+    · intro c hc; simp at hc
+  · intro pl hpl k hk
+    simp [exT] at hpl
+    rcases hpl with rfl | rfl <;> simp at hk <;> rcases hk with rfl | rfl <;> simp
+
+example : C13.fmt (exT.to13 ["a", "b", "c"])
+    (absE leaf13 (fun _ => C13.Leaf.bad) ["a", "b", "c"] [("a", .dict [("b", .leaf (.int 7))]), ("c", .leaf (.str "x"))]) =
+    .ok (.str "run_7_x") := by decide
+
+/-! ### corollaries -/
+
+/-- C13's monotonicity of formatting (`fmt_mono`: a context with more information formats a resolved
+template to the same string) transferred to C08's formatter: if C08 renders `t` against `es`, it renders the
+same string against any `es'` whose slot view is above that of `es` -/
+theorem c08_format_mono (t : Tpl8) (hw : t.WF names) (es es' : C08.Entries)
+    (hle : C13.leL (absE leaf13 (fun _ => C13.Leaf.bad) names es) (absE leaf13 (fun _ => C13.Leaf.bad) names es'))
+    (hp : C08.fieldsPresent es t.pieces = true) (hs : ScalarFields es t.parts)
+    (hp' : C08.fieldsPresent es' t.pieces = true) (hs' : ScalarFields es' t.parts) :
+    ∃ f s, C08.formatInit (some t.str) = .ok f ∧ C08.formatCall f (.dict es) = .ok s ∧
+      C08.formatCall f (.dict es') = .ok s := by
+  obtain ⟨f, hf, hcall⟩ := fmt_08_13 names t hw
+  obtain ⟨s, h1, h2⟩ := (hcall es).2 hp hs
+  obtain ⟨s', h1', h2'⟩ := (hcall es').2 hp' hs'
+  have := C13.fmt_mono (t.to13 names) _ _ (.str s) hle h2
+  rw [h2'] at this
+  have e : s' = s := by simpa using this
+  subst e
+  exact ⟨f, s', hf, h1, h1'⟩
+
+end format
+
+/-! ## 7. `update_nested(key, d, other)` (functions.py:538-598) and the dictionary primitives of C14's value type
+
+Lean: `C07.nestV` / `nestL` / `updateNested` (shared slot type, any leaves), `C11.nestInto` / `nestSlots` /
+`updateNested` (C14's own value type `V`: ints, strings, lists/tuples, dictionaries — used by
+`SplitIntoBins` / `IterateBins`).  `toV lv` puts the shared slot type inside `V` (leaves by `lv`, which must
+not produce a dictionary).  Both models raise `TypeError` when a non-dictionary is met on the way.
+Outside the common domain: `V`'s lists and tuples that contain dictionaries (not in the image of `toV`;
+for `update_nested` they are non-dictionaries like any leaf); `C07.mnV`'s "recursive *other* is forbidden"
+test (`LenaValueError` of `get_most_nested_subdict_with`), false for every finite value, which C11 does not
+transcribe. -/
+
+section nested
+variable {β : Type} (lv : β → C14.V)
+
+mutual
+/-- the shared slot type inside C14's value type -/
+def toV : Val β → C14.V
+  | .leaf a => lv a
+  | .dict l => .dict (toVL l)
+def toVL : Slots β → C14.Slots
+  | [] => []
+  | none :: r => none :: toVL r
+  | some v :: r => some (toV v) :: toVL r
+end
+
+theorem toV_dict (l : Slots β) : toV lv (.dict l) = .dict (toVL lv l) := by rw [toV]
+
+theorem toVL_cons (x : Option (Val β)) (r : Slots β) :
+    toVL lv (x :: r) = x.map (toV lv) :: toVL lv r := by
+  cases x <;> simp [toVL]
+
+theorem toVL_length : ∀ l : Slots β, (toVL lv l).length = l.length
+  | [] => by simp [toVL]
+  | x :: r => by simp [toVL_cons, toVL_length r]
+
+/-- `d.get(key)`: `C14.getSlot` is `Val.getSlot` -/
+theorem getSlot_14 : ∀ (l : Slots β) (k : Nat), C14.getSlot (toVL lv l) k = (getSlot l k).map (toV lv)
+  | [], k => by simp [toVL, C14.getSlot, getSlot]
+  | x :: r, 0 => by simp [toVL_cons, C14.getSlot, getSlot]
+  | x :: r, k + 1 => by
+    have := getSlot_14 r k
+    simp only [C14.getSlot, getSlot] at this
+    simp [toVL_cons, C14.getSlot, getSlot, this]
+
+/-- `d[key] = v` / `del d[key]`: `C14.setSlot` is `Val.setSlot` -/
+theorem setSlot_14 : ∀ (l : Slots β) (k : Nat) (x : Option (Val β)),
+    C14.setSlot (toVL lv l) k (x.map (toV lv)) = toVL lv (setSlot l k x)
+  | [], 0, x => by simp [toVL, C14.setSlot, setSlot, toVL_cons]
+  | [], k + 1, x => by
+    have := setSlot_14 [] k x
+    simp only [toVL] at this
+    simp [toVL, C14.setSlot, setSlot, toVL_cons, this]
+  | y :: r, 0, x => by simp [toVL_cons, C14.setSlot, setSlot]
+  | y :: r, k + 1, x => by simp [toVL_cons, C14.setSlot, setSlot, setSlot_14 r k x]
+
+/-- `{}` over `n` keys -/
+theorem emptyD_14 (n : Nat) : C14.emptyD n = toVL lv (Val.empty n) := by
+  induction n with
+  | zero => simp [C14.emptyD, Val.empty, toVL]
+  | succ n ih =>
+    simp only [C14.emptyD, Val.empty] at ih
+    simp [C14.emptyD, Val.empty, List.replicate_succ, toVL_cons, ih]
+
+/-- `d.update(other)` (top-level keys of `other` win): C14's `dictUpdate` is C13's `shallowUpdate` -/
+theorem dictUpdate_14_13 (lv : C13.Leaf → C14.V) : ∀ (s c : C13.Ctx),
+    C14.dictUpdate (toVL lv s) (toVL lv c) = toVL lv (C13.shallowUpdate s c)
+  | [], c => by cases c <;> simp [toVL, C14.dictUpdate, C13.shallowUpdate]
+  | x :: s, [] => by simp [toVL, toVL_cons, C14.dictUpdate, C13.shallowUpdate]
+  | x :: s, y :: c => by
+    simp only [toVL_cons, C14.dictUpdate, C13.shallowUpdate, dictUpdate_14_13 lv s c]
+    cases y <;> simp
+
+/-- outcomes: C07's `Out` against C11's `Except Lena.Err` -/
+def mapOutV : C07.Out (Val β) → Except Lena.Err C14.V
+  | .ok v => .ok (toV lv v)
+  | .typeError => .error .typeError
+  | .lenaTypeError => .error .lenaTypeError
+
+def mapOutL : C07.Out (Slots β) → Except Lena.Err C14.Slots
+  | .ok l => .ok (toVL lv l)
+  | .typeError => .error .typeError
+  | .lenaTypeError => .error .lenaTypeError
+
+theorem nestSlots_nil (k : Nat) (x : C14.V) (dk : Val β) (hx : x = toV lv dk) : ∀ j : Nat,
+    C11.nestSlots k x j [] = .ok (toVL lv (setSlot [] j (some dk)))
+  | 0 => by simp [C11.nestSlots, setSlot, toVL, hx]
+  | j + 1 => by simp [C11.nestSlots, nestSlots_nil k x dk hx j, setSlot, toVL]
+
+mutual
+theorem nestInto_11_07 (hlv : ∀ a l, lv a ≠ .dict l) (k : Nat) (dk : Val β) : ∀ v : Val β,
+    C11.nestInto k (toV lv dk) (toV lv v) = mapOutV lv (C07.nestV k dk v)
+  | .leaf a => by
+    rw [toV, C07.nestV, mapOutV]
+    cases h : lv a with
+    | dict l => exact absurd h (hlv a l)
+    | int i => simp [C11.nestInto]
+    | str s => simp [C11.nestInto]
+    | seq t l => simp [C11.nestInto]
+  | .dict y => by
+    rw [toV_dict, C11.nestInto, C07.nestV, nestSlots_11_07 hlv k dk y k]
+    cases C07.nestL k dk k y <;> simp [mapOutL, mapOutV, toV_dict]
+theorem nestSlots_11_07 (hlv : ∀ a l, lv a ≠ .dict l) (k : Nat) (dk : Val β) : ∀ (l : Slots β) (j : Nat),
+    C11.nestSlots k (toV lv dk) j (toVL lv l) = mapOutL lv (C07.nestL k dk j l)
+  | [], j => by
+    rw [toVL, nestSlots_nil lv k _ dk rfl j, C07.nestL, mapOutL]
+  | none :: r, 0 => by simp [toVL, C11.nestSlots, C07.nestL, mapOutL]
+  | some v :: r, 0 => by
+    rw [toVL, C11.nestSlots, C07.nestL, nestInto_11_07 hlv k dk v]
+    cases C07.nestV k dk v <;> simp [mapOutV, mapOutL, toVL]
+  | x :: r, j + 1 => by
+    rw [toVL_cons, C11.nestSlots, C07.nestL, nestSlots_11_07 hlv k dk r j]
+    cases C07.nestL k dk j r <;> simp [mapOutL, toVL_cons]
+end
+
+/-- **update_nested, C11 = C07**: on the image of the shared slot type, C11's `updateNested` returns what
+C07's does — the new `d`, or `TypeError` — for every key number, every `d` and `other`, every leaf
+embedding that produces no dictionary -/
+theorem updateNested_11_07 (hlv : ∀ a l, lv a ≠ .dict l) (k : Nat) (d o : Slots β) :
+    C11.updateNested k (toVL lv d) (toVL lv o) = mapOutL lv (C07.updateNested k d o) := by
+  rw [C11.updateNested, C07.updateNested, getSlot_14]
+  cases hd : getSlot d k with
+  | none =>
+    simp only [Option.map_none, mapOutL]
+    have := setSlot_14 lv d k (some (.dict o))
+    simp only [Option.map_some, toV_dict] at this
+    rw [this]
+  | some dk =>
+    simp only [Option.map_some]
+    have h := nestInto_11_07 lv hlv k dk (.dict o)
+    rw [toV_dict] at h
+    rw [h, C07.nestV]
+    cases hn : C07.nestL k dk k o with
+    | ok o' =>
+      simp only [mapOutV, mapOutL]
+      have := setSlot_14 lv d k (some (.dict o'))
+      simp only [Option.map_some] at this
+      rw [this]
+    | lenaTypeError => simp [mapOutV, mapOutL]
+    | typeError => simp [mapOutV, mapOutL]
+
+/-- leaves of C13 / of the harness inside `V`: ints and strings -/
+def lv13 : C13.Leaf → C14.V
+  | .int i => .int i
+  | .str s => .str s
+  | .bad => .str "<bad>"
+
+theorem lv13_not_dict : ∀ a l, lv13 a ≠ .dict l := by
+  intro a l; cases a <;> simp [lv13]
+
+example : C11.updateNested 0 (toVL lv13 [some (.leaf (.int 1)), none]) (toVL lv13 [some (.dict [none, some (.leaf (.int 2))]), none]) =
+    mapOutL lv13 (C07.updateNested 0 [some (.leaf (.int 1)), none] [some (.dict [none, some (.leaf (.int 2))]), none]) :=
+  updateNested_11_07 lv13 lv13_not_dict 0 _ _
+
+/-! ### corollaries -/
+
+/-- C07's exact characterisation of the `TypeError` of `update_nested` (`update_nested_typeError_iff`) for
+C11's transcription -/
+theorem c11_update_nested_typeError_iff (hlv : ∀ a l, lv a ≠ .dict l) (k : Nat) (d o : Slots β) :
+    C11.updateNested k (toVL lv d) (toVL lv o) = .error .typeError ↔
+      (getSlot d k).isSome = true ∧
+        ∃ c, getPath (.dict o) (List.replicate (C07.nestDepth k (.dict o)) k) = some (.leaf c) := by
+  rw [updateNested_11_07 lv hlv, ← C07.update_nested_typeError_iff]
+  cases C07.updateNested k d o <;> simp [mapOutL]
+
+/-- C07's `update_nested_ok` for C11: never `LenaTypeError`; a key that is absent from `d` is simply set -/
+theorem c11_update_nested_absent (hlv : ∀ a l, lv a ≠ .dict l) (k : Nat) (d o : Slots β) (h : getSlot d k = none) :
+    C11.updateNested k (toVL lv d) (toVL lv o) = .ok (toVL lv (setSlot d k (some (.dict o)))) := by
+  rw [updateNested_11_07 lv hlv, (C07.update_nested_ok k d o).2.1 h, mapOutL]
+
+end nested
+
+/-! ## 8. `Variable._update_context(context, var_context)` (variables/variable.py:180-225)
+
+Lean: `C14.updateVar` / `C14.updateContext` (the method in full: composition history, `TypeError`s, both
+versions of the condition of line 196; `C14.UP` is its closed form on well-formed dictionaries,
+`Lemmas.C14.updateVar_eq_UP`), and the special case that C01 and C05 use: `Flow.variableCall` — "for a variable
+without type, on a context whose `variable` (if any) has no `type`, `_update_context` is
+`context["variable"] = var_context`" (`Model/Flow.lean`; `C04.setVariable` makes the same assumption).
+The theorem below proves that assumption from C14's transcription.  `absF` is the slot view of `Flow.Value`
+(association lists with string keys, like C08's) inside C14's value type.
+Outside the common domain: a `variable` item that is not a dictionary (C14: `TypeError` or untouched,
+depending on its truthiness and type; the flow vocabulary of C01/C05 never produces one), a `variable` with a
+`type` or `compose` key (C14 continues the composition history; C01/C05 use untyped variables only), and the
+data part of the call (`Flow.Fn.onData` may raise, C14's getters are total functions). -/
+
+section updateContext
+
+/-- `d.get(key)` on `Flow.Ctx` -/
+def lookupF : Flow.Ctx → String → Option Flow.Value
+  | [], _ => none
+  | (k', v) :: r, k => if k' = k then some v else lookupF r k
+
+theorem lookupF_dictSet (k : String) (v : Flow.Value) : ∀ (c : Flow.Ctx) (k' : String),
+    lookupF (Flow.dictSet c k v) k' = if k = k' then some v else lookupF c k'
+  | [], k' => by simp [Flow.dictSet, lookupF]
+  | (k0, v0) :: r, k' => by
+    rw [Flow.dictSet]
+    by_cases e : k0 = k
+    · subst e
+      by_cases e2 : k0 = k' <;> simp [lookupF, e2]
+    · simp only [e, if_false, lookupF, lookupF_dictSet k v r k']
+      by_cases e2 : k0 = k'
+      · subst e2; simp [Ne.symm e]
+      · simp [e2]
+
+variable (names : List String)
+
+mutual
+/-- the slot view of a flow value inside C14's value type (`quot n d`, the float of `Mean`, is an opaque
+scalar with the truthiness of `n`) -/
+def absF : Flow.Value → C14.V
+  | .int i => .int i
+  | .str s => .str s
+  | .quot n _ => .int n
+  | .list xs => .seq false (absFs xs)
+  | .tup xs => .seq true (absFs xs)
+  | .dict kvs => .dict (names.map (fun k => absFSlot k kvs))
+def absFs : List Flow.Value → List C14.V
+  | [] => []
+  | x :: r => absF x :: absFs r
+def absFSlot (k : String) : Flow.Ctx → Option C14.V
+  | [] => none
+  | (k', v) :: r => if k' = k then some (absF v) else absFSlot k r
+end
+
+def absFE (c : Flow.Ctx) : C14.Slots := names.map (fun k => absFSlot names k c)
+
+theorem absF_dict (c : Flow.Ctx) : absF names (.dict c) = .dict (absFE names c) := by rw [absF]; rfl
+
+theorem absFSlot_eq (k : String) : ∀ c : Flow.Ctx, absFSlot names k c = (lookupF c k).map (absF names)
+  | [] => by simp [absFSlot, lookupF]
+  | (k', v) :: r => by
+    rw [absFSlot, lookupF]
+    by_cases h : k' = k
+    · simp [h]
+    · simp [h, absFSlot_eq k r]
+
+theorem getSlot_absFE (c : Flow.Ctx) (k : String) :
+    C14.getSlot (absFE names c) (names.idxOf k) = if k ∈ names then (lookupF c k).map (absF names) else none := by
+  by_cases hk : k ∈ names
+  · have h1 : names[names.idxOf k]? = some k := by
+      rw [List.getElem?_eq_getElem (List.idxOf_lt_length_of_mem hk)]
+      simp
+    simp [C14.getSlot, absFE, List.getElem?_map, h1, absFSlot_eq, hk]
+  · have : names.idxOf k = names.length := List.idxOf_eq_length hk
+    simp [C14.getSlot, absFE, this, hk]
+
+theorem setSlot_eq_set : ∀ (l : C14.Slots) (i : Nat) (x : Option C14.V), i < l.length →
+    C14.setSlot l i x = l.set i x
+  | [], i, x, h => by simp at h
+  | y :: r, 0, x, _ => by simp [C14.setSlot]
+  | y :: r, i + 1, x, h => by
+    simp only [C14.setSlot, List.set_cons_succ]
+    rw [setSlot_eq_set r i x (by simpa using h)]
+
+/-- `d[key] = v` on `Flow.Ctx` (`dictSet`), in the slot view, is C14's `setSlot` -/
+theorem absFE_dictSet (hn : names.Nodup) (c : Flow.Ctx) (k : String) (hk : k ∈ names) (v : Flow.Value) :
+    absFE names (Flow.dictSet c k v) = C14.setSlot (absFE names c) (names.idxOf k) (some (absF names v)) := by
+  have hlt : names.idxOf k < names.length := List.idxOf_lt_length_of_mem hk
+  rw [setSlot_eq_set _ _ _ (by simpa [absFE] using hlt)]
+  apply List.ext_getElem?
+  intro i
+  rw [List.getElem?_set]
+  simp only [absFE, List.getElem?_map, List.length_map]
+  by_cases hi : i < names.length
+  · rw [List.getElem?_eq_getElem hi]
+    simp only [Option.map_some, absFSlot_eq, lookupF_dictSet]
+    by_cases e : names.idxOf k = i
+    · have : names[i] = k := by subst e; exact List.getElem_idxOf hlt
+      simp [e, hi, this]
+    · have : k ≠ names[i] := by
+        intro h; apply e; rw [h]; exact hn.idxOf_getElem i hi
+      simp [e, this]
+  · have h1 : names[i]? = none := List.getElem?_eq_none (by omega)
+    have h2 : names.idxOf k ≠ i := by omega
+    simp [h1, h2]
+
+/-- the context of the flow vocabulary of C01/C05: `variable` absent, or a dictionary without `type` and
+`compose` -/
+def Untyped (c : Flow.Ctx) : Prop :=
+  match lookupF c "variable" with
+  | none => True
+  | some (.dict d) => lookupF d "type" = none ∧ lookupF d "compose" = none
+  | some _ => False
+
+/-- **_update_context, C14 ↔ Flow (C01/C05)**: on a context without a typed `variable`, C14's full
+transcription of `_update_context` — either version of the condition of line 196 — does what
+`Flow.variableCall` (and `C04.setVariable`) assume: `context["variable"] = var_context`, nothing else -/
+theorem updateContext_14_flow (hn : names.Nodup) (hv : "variable" ∈ names) (fx : Bool) (c vc : Flow.Ctx)
+    (hu : Untyped c) :
+    C14.updateContext names fx (absFE names c) (absFE names vc) =
+      .ok (absFE names (Flow.dictSet c "variable" (.dict vc))) := by
+  have hvar : C14.updateVar names fx (C14.getSlot (absFE names c) (C14.kVariable names)) (absFE names vc) =
+      .ok (absFE names vc) := by
+    rw [C14.kVariable, C14.key, getSlot_absFE, if_pos hv]
+    unfold Untyped at hu
+    cases hl : lookupF c "variable" with
+    | none => simp [C14.updateVar]
+    | some w =>
+      rw [hl] at hu
+      cases w with
+      | int i => exact absurd hu id
+      | str s => exact absurd hu id
+      | quot n d => exact absurd hu id
+      | list xs => exact absurd hu id
+      | tup xs => exact absurd hu id
+      | dict d =>
+        simp only at hu
+        have ht : C14.hasKey (absFE names d) (C14.kType names) = false := by
+          rw [C14.hasKey, C14.kType, C14.key, getSlot_absFE, hu.1]; simp
+        have hc : C14.hasKey (absFE names d) (C14.kCompose names) = false := by
+          rw [C14.hasKey, C14.kCompose, C14.key, getSlot_absFE, hu.2]; simp
+        simp only [Option.map_some, absF_dict, C14.updateVar, ht, hc, Bool.and_false, Bool.or_false]
+        split <;> simp
+  rw [C14.updateContext, hvar]
+  simp only
+  rw [absFE_dictSet names hn c "variable" hv, absF_dict]
+  rfl
+
+/-- `Flow.variableCall`'s context, spelled out: `{"name": name}` is stored under `variable` -/
+theorem variableCall_ctx_14 (hn : names.Nodup) (hv : "variable" ∈ names) (fx : Bool) (name : String) (g : Flow.Fn)
+    (v r : Flow.Value) (hu : Untyped (Flow.getDataContext v).2) (hr : Flow.variableCall name g v = .ok r) :
+    ∃ d', r = .tup [d', .dict (Flow.dictSet (Flow.getDataContext v).2 "variable" (.dict [("name", .str name)]))] ∧
+      C14.updateContext names fx (absFE names (Flow.getDataContext v).2) (absFE names [("name", .str name)]) =
+        .ok (absFE names (Flow.getContext r)) := by
+  unfold Flow.variableCall at hr
+  simp only at hr
+  cases hg : g.onData (Flow.getDataContext v).1 with
+  | error e => rw [hg] at hr; simp at hr
+  | ok d' =>
+    rw [hg] at hr
+    simp only [Except.ok.injEq] at hr
+    subst hr
+    refine ⟨d', rfl, ?_⟩
+    rw [updateContext_14_flow names hn hv fx _ _ hu]
+    rfl
+
+example : Untyped [("variable", .dict [("name", .str "x")]), ("a", .int 1)] := by
+  simp [Untyped, lookupF]
+
+example : C14.updateContext ["name", "type", "variable"] true
+      (absFE ["name", "type", "variable"] [("variable", .dict [("name", .str "x")])])
+      (absFE ["name", "type", "variable"] [("name", .str "y")]) =
+    .ok (absFE ["name", "type", "variable"]
+      (Flow.dictSet [("variable", .dict [("name", .str "x")])] "variable" (.dict [("name", .str "y")]))) :=
+  updateContext_14_flow _ (by decide) (by decide) true _ _ (by simp [Untyped, lookupF])
+
+/-! ### corollary: the closed form `UP` of C14 on the flow vocabulary -/
+
+/-- on an untyped `variable` dictionary C14's closed form `UP` (which `Props.C14.compose_eq_sequence` rests on)
+returns the new variable context: the history is empty.  So the chains of untyped `Variable`s of C01/C05
+are chains of `UP` steps, and `Lemmas.C14.UP_of_hist_nil` is exactly `Flow.variableCall`'s assumption. -/
+theorem UP_untyped (d vc : Flow.Ctx) (ht : lookupF d "type" = none) (hc : lookupF d "compose" = none) :
+    C14.UP names (absFE names d) (absFE names vc) = absFE names vc := by
+  apply C14.UP_of_hist_nil
+  unfold C14.hist
+  rw [C14.kCompose, C14.key, getSlot_absFE, hc, C14.kType, C14.key, getSlot_absFE, ht]
+  simp
+
+end updateContext
 end Lena.Bridge.Context
